@@ -135,6 +135,7 @@ class FnSpec:
         self.tail_wraps = []    # (id, occ, opener_anchor, text)
         self.extra_sig = []     # raw text appended in clause position (e.g. 'no_unwind')
         self.suffix = []        # (id, text) inserted before the closing brace of the fn body
+        self.lost_hints = []    # ids of hints whose anchor was not found (dropped, reported)
 
     def loop(self, n):
         return self.loops.setdefault(n, dict(invariant=[], invariant_except_break=[], ensures=[],
@@ -450,7 +451,11 @@ def splice_fn(text, spec, lo=0, hi=None):
             add(close, '    break; /*vx:T13*/\n' + lind + '    }\n' + lind)
     # hints
     for cid, where, occ, anchor, t in spec.hints:
-        pos, pend = _find_anchor(text, bo, end, anchor, occ, spec.name, True)
+        try:
+            pos, pend = _find_anchor(text, bo, end, anchor, occ, spec.name, True)
+        except LostAnchor:
+            spec.lost_hints.append(cid)
+            continue
         if where == 'before':
             ls = text.rfind('\n', 0, pos) + 1
             hind = re.match(r'[ \t]*', text[ls:]).group(0)
@@ -464,28 +469,39 @@ def splice_fn(text, spec, lo=0, hi=None):
             raise LostAnchor('bad hint position %r' % where)
     # value-naming wraps:  E  ->  { let r__ = E; <text> r__ }
     for cid, occ, anchor, t in spec.wraps:
-        pos, pend = _find_anchor(text, bo, end, anchor, occ, spec.name, True)
+        try:
+            pos, pend = _find_anchor(text, bo, end, anchor, occ, spec.name, True)
+        except LostAnchor:
+            spec.lost_hints.append(cid)
+            continue
         add(pos, '{ let r__ = ')
         add(pend, '; ' + mark(t, cid) + ' r__ }')
     if spec.arm_wraps:
         ms = find_matches(masked, bo, end)
         for cid, mo, ao, t in spec.arm_wraps:
             if mo >= len(ms):
-                raise LostAnchor('fn %s: match %d not found (%d matches)' % (spec.name, mo, len(ms)))
+                spec.lost_hints.append(cid)
+                continue
             arms = match_arms(masked, ms[mo][1])
             if ao >= len(arms):
-                raise LostAnchor('fn %s: match %d has %d arms, arm %d wanted' % (spec.name, mo, len(arms), ao))
+                spec.lost_hints.append(cid)
+                continue
             a, b = arms[ao]
             add(a, '{ let r__ = ')
             add(b, '; ' + mark(t, cid) + ' r__ }')
     for cid, occ, anchor, t in spec.tail_wraps:
-        pos, pend = _find_anchor(text, bo - 1, end, anchor, occ, spec.name, True)
+        try:
+            pos, pend = _find_anchor(text, bo - 1, end, anchor, occ, spec.name, True)
+        except LostAnchor:
+            spec.lost_hints.append(cid)
+            continue
         lb = pend - 1
         if masked[lb] != '{':
             raise LostAnchor('fn %s: tail anchor %r must end with the block opener' % (spec.name, anchor))
         tl = block_tail(masked, lb)
         if tl is None:
-            raise LostAnchor('fn %s: block after %r has no tail expression' % (spec.name, anchor))
+            spec.lost_hints.append(cid)
+            continue
         add(tl[0], '{ let r__ = ')
         add(tl[1], '; ' + mark(t, cid) + ' r__ }')
     # closure contracts
